@@ -1,0 +1,12 @@
+//go:build !verif
+
+// Package vhook provides named instrumentation points for external verification harnesses.
+//
+// Without the "verif" build tag every function here is empty and inlined away.
+package vhook
+
+// At marks a named point in the code
+func At(point string) {}
+
+// Poison overwrites a buffer that is being released
+func Poison(b []byte) {}
